@@ -320,7 +320,13 @@ def _xpath_for_url(url, el_tag):
 
 def _attrib_to_pass_on(current_attrib, el, skips=_ATTRIB_W_CUSTOM_INHERITANCE):
     attr_catcher = etree.Element("dummy")
-    _inherit_attrib(el.attrib, attr_catcher, skips=skips, skip_unhandled=True)
+    own_attrib = el.attrib
+    if "style" in own_attrib and not _is_shape(el):
+        # descendants inherit property by property, not the style attribute as a
+        # whole: spell the declarations out (they win over el's own attributes)
+        own_attrib = dict(own_attrib)
+        parse_css_declarations(own_attrib.pop("style"), own_attrib)
+    _inherit_attrib(own_attrib, attr_catcher, skips=skips, skip_unhandled=True)
     _inherit_attrib(current_attrib, attr_catcher, skips=skips)
     return dict(attr_catcher.attrib)
 
